@@ -40,6 +40,11 @@ CHECKS = {
    technique='bounded exhaustive exploration (CrossHair path enumeration, z3 bookkeeping) of nodes.reduplicate on all DAGs obtained from forests up to the bound by re-using up to two earlier objects',
    text='For every forest up to the bound and every way of inserting one or two earlier objects (leaf, subtree, empty list) at later non-nested positions: ids pairwise distinct afterwards, tokens unchanged, input not modified, already-unique nodes keep their identity, first occurrence of a shared node keeps its id. The choices are enumerated path by path - a bounded exhaustive claim.',
    note='Trusted: CrossHair path bookkeeping. Outside: larger forests, more than two shared insertions; the call sites in the strategies are asserted in the C05 harness.'),
+ 'C16': dict(
+   category='model_checking', design_ref='DESIGN.md 5 C16',
+   technique='bounded symbolic execution (CrossHair/z3) of smtlib.collect_information / get_sort / get_bv_width on generated well-sorted terms with symbolic numerals (widths, indices, extension amounts, fp sizes); generator typing validated with z3; default constants type-checked with z3',
+   text='About 200 operator/argument-kind families covering every operator the inference code knows (bit-vectors incl. indexed operators, FP, Ints/Reals, Core, Strings, Arrays, datatypes, let/quantifier binders) with operands that are variables, constants, applications of declared functions (sort unknown to ddSMT) or nested applications; numerals are symbolic integers, so one explored path covers every width/index value in range. For every subterm: inferred sort is None or the actual sort, inferred width is -1 or the actual width.',
+   note='Trusted: CrossHair/z3; the generator typing (validated against z3 on concrete instances each run); hash shim T. Numerals 1..99 (digit count forks), repeat counts concrete. Outside: define-sort, parametric datatypes, match, deeper nesting.'),
  'C17': dict(
    category='translation_validation', design_ref='DESIGN.md 5 C17',
    technique='translation validation with z3 (cvc5 cross-check in thorough): each (original, replacement) pair produced by the real mutator code on generated instances is decided as an SMT query over uninterpreted operands',
